@@ -270,7 +270,21 @@ class KBEval:
                     return a & KB.const(a.w, d - 1)
                 if d and a.value() is not None and not signed:
                     return KB.const(w, a.value() % d)
+                if d and a.value() is not None and signed:
+                    sa = a.value() - (1 << a.w) if a.value() >> (a.w - 1) else a.value()
+                    sd = d - (1 << b.w) if d >> (b.w - 1) else d
+                    q_ = abs(sa) // abs(sd) * (1 if (sa < 0) == (sd < 0) else -1)
+                    return KB.const(w, sa - q_ * sd)
                 return KB.top(w)
+            if op in ('*', '/') and a.value() is not None and b.value() is not None and signed:
+                sa = a.value() - (1 << a.w) if a.value() >> (a.w - 1) else a.value()
+                sb = b.value() - (1 << b.w) if b.value() >> (b.w - 1) else b.value()
+                if op == '*':
+                    return KB.const(w, sa * sb)
+                if sb == 0:
+                    self.ub.append('division by zero in %s' % astq.show(n)[:60])
+                    return KB.top(w)
+                return KB.const(w, abs(sa) // abs(sb) * (1 if (sa < 0) == (sb < 0) else -1))
             if op in ('*', '/'):
                 if a.value() is not None and b.value() is not None and not signed:
                     v = a.value() * b.value() if op == '*' else (a.value() // b.value() if b.value() else 0)
